@@ -116,6 +116,14 @@ pub fn stream(rng: &mut Rng, len: usize, class: &str) -> Vec<f64> {
 			}
 		}
 	}
+	// cross-build runs only (`--compat`; those transcripts are compared build against build, never against the rational
+	// model): magnitudes next to the overflow threshold, where `x + x`, sums and products become infinite
+	if crate::util::is_compat() && class == "alphabet" && rng.chance(1, 2) {
+		let k = *rng.pick(&[4.0e307, 9.0e307, 1.7e308]);
+		for x in v.iter_mut() {
+			*x = if *x == 0.0 { k } else { (*x).signum() * k / (1.0 + x.abs() / 8.0) };
+		}
+	}
 	v
 }
 
